@@ -167,31 +167,35 @@ def normalizeNewlines : Dialect → List UInt8 → List UInt8
   | .luau => normalizeLuau
   | .lua51 => normalizeLua51
 
-/-- `[[` inside a level-0 long string: stock Lua 5.1 (`LUA_COMPAT_LSTR = 1`) raises
-"nesting of [[...]] is deprecated". -/
+/-- `[[` inside a level-0 long string. `llex.c` (5.1.0–5.1.5) `read_long_string`, `case '['`:
+`if (skip_sep(ls) == sep) { … #if LUA_COMPAT_LSTR == 1  if (sep == 0) luaX_lexerror(ls, "nesting
+of [[...]] is deprecated", '['); }` — active in the stock build (`luaconf.h` defines
+`LUA_COMPAT_LSTR` as 1; manual §7.1). By the grammar of manual §2.1 alone such a literal is a
+valid string; the decoders take the build option as the parameter `compatLstr`. -/
 def hasNestedOpen : List UInt8 → Bool
   | 91 :: 91 :: _ => true
   | _ :: r => hasNestedOpen r
   | [] => false
 
 /-- a long-bracket literal; input starts after the first `[` -/
-def decodeLong (d : Dialect) (afterBracket : List UInt8) : Option (List UInt8 × List UInt8) :=
+def decodeLong (d : Dialect) (compatLstr : Bool) (afterBracket : List UInt8) :
+    Option (List UInt8 × List UInt8) :=
   let level := (afterBracket.takeWhile (· == 61)).length
   match afterBracket.drop level with
   | 91 :: body =>
     match scanLong level (skipFirstNewline d body) with
     | none => none
     | some (raw, rest) =>
-      if d == .lua51 && level == 0 && hasNestedOpen raw then none
+      if compatLstr && d == .lua51 && level == 0 && hasNestedOpen raw then none
       else some (normalizeNewlines d raw, rest)
   | _ => none
 
 /-- The text of exactly one string literal ↦ its bytes. `none` if the text is not exactly one
 well-formed string token of the dialect. -/
-def decodeLiteral (d : Dialect) (text : List UInt8) : Option (List UInt8) :=
+def decodeLiteral (d : Dialect) (compatLstr : Bool) (text : List UInt8) : Option (List UInt8) :=
   match text with
   | 91 :: r =>
-    match decodeLong d r with
+    match decodeLong d compatLstr r with
     | some (out, []) => some out
     | _ => none
   | q :: r =>
@@ -202,8 +206,11 @@ def decodeLiteral (d : Dialect) (text : List UInt8) : Option (List UInt8) :=
     else none
   | [] => none
 
-abbrev decodeLuau := decodeLiteral .luau
-abbrev decodeLua51 := decodeLiteral .lua51
+abbrev decodeLuau := decodeLiteral .luau true
+/-- stock Lua 5.1: `LUA_COMPAT_LSTR = 1` -/
+abbrev decodeLua51 := decodeLiteral .lua51 true
+/-- Lua 5.1 by the manual's grammar alone (`LUA_COMPAT_LSTR` undefined) -/
+abbrev decodeLua51Manual := decodeLiteral .lua51 false
 
 /-- One section of a Luau interpolated string: input is the text after `` ` `` or `}`; the
 section ends at the first unescaped `` ` `` or `{`. Returns the denoted bytes and the rest
